@@ -574,7 +574,16 @@ mod imp {
                 let inp = |st: Stmt, e: Expect| Step::Input { stmts: vec![st], expect: e };
                 let gc = self.rng.chance(1, 2);
                 let mut seq: Vec<Step> = Vec::new();
-                seq.push(inp(sc(format!("fn mke{id}(x) {{ let mut c = {v}; e{id} = fn(y) {{ return c + y }}; nope{id}(0); return 1 / zero }}"), String::new()), Expect::Ok));
+                // the failure is raised in the frame that owns the captured local (depth 0) or one / two frames below it: the
+                // upvalue then belongs to an INTERMEDIATE dropped frame, and the local is still live after the call
+                let depth = self.rng.below(3);
+                if depth == 0 {
+                    seq.push(inp(sc(format!("fn mke{id}(x) {{ let mut c = {v}; e{id} = fn(y) {{ return c + y }}; nope{id}(0); return 1 / zero }}"), String::new()), Expect::Ok));
+                } else {
+                    let mid = if depth == 1 { format!("fn mid{id}(d) {{ return 1 / d }}") }
+                              else { format!("fn low{id}(d) {{ return 1 / d }}\nfn mid{id}(d) {{ let w = low{id}(d); return w + 1 }}") };
+                    seq.push(inp(sc(format!("{mid}\nfn mke{id}(x) {{ let mut c = {v}; e{id} = fn(y) {{ return c + y }}; nope{id}(0); let r = mid{id}(zero); return r + c }}"), String::new()), Expect::Ok));
+                }
                 seq.push(inp(sc(format!("println(mke{id}(0))"), String::new()), Expect::RuntimeError));
                 if gc { seq.push(Step::Gc(true)); }
                 seq.push(inp(sc(format!("println(e{id}(0))"), format!("{}\n", v)), Expect::Ok));
